@@ -257,6 +257,25 @@ def run_case(case, rec, ctx):
         pass
     except Exception as exc:  # noqa: BLE001
         rec.check(False, "renamed_not_evaluable", f"{label}: renamed model cannot be evaluated: {type(exc).__name__}: {str(exc)[:200]}", {"renames": renames}, ctx["feats"])
+    # the two models are independent objects: assigning a parameter value in one must not show up in the other
+    try:
+        if new is model:          # nothing was renamed and the library handed back the same object: nothing to alias
+            raise StopIteration
+        k_old = next(iter(model.parameter_defaults))
+        k_new = smap.get(k_old, k_old)
+        v_old, v_new = model.parameter_defaults[k_old], new.parameter_defaults[k_new]
+        new.parameter_defaults[k_new] = 123.456
+        leaked_to_original = model.parameter_defaults[k_old] != v_old
+        new.parameter_defaults[k_new] = v_new
+        model.parameter_defaults[k_old] = 654.321
+        leaked_to_renamed = new.parameter_defaults[k_new] != v_new
+        model.parameter_defaults[k_old] = v_old
+        rec.hit("aliasing:parameter_defaults")
+        rec.check(not leaked_to_original and not leaked_to_renamed, "shared_parameter_values",
+                  f"{label}: the renamed model and the original share their parameter values (assignment in the renamed model changed the original: "
+                  f"{leaked_to_original}; assignment in the original changed the renamed model: {leaked_to_renamed})", {"renames": renames}, ctx["feats"])
+    except (StopIteration, KeyError):
+        pass
     multi = sum(1 for s in smap if sum(s in e.free_symbols for e in [model.intensity, *model.amplitudes.values(), *model.kinematic_variables.values(), *model.components.values()]) >= 2
                 or s in model.kinematic_variables)
     rec.case((rname, C.config_key(cfg), case["map"]), multi >= 1, map=case["map"], formalism=reaction.formalism, align=cfg["align"])
